@@ -5,7 +5,7 @@
 
 package imports
 
-//@ property C19: matchTag, matchTags, MatchFile
+//@ property C19: matchTag, matchTags, MatchFile, matchOS
 
 // ---- vocabulary of property C19 (Go's build-constraint rules) ----
 //
@@ -56,3 +56,8 @@ package imports
 //@   ensures tags["*"] ==> result
 //@   ensures !tags["*"] && firstIdx(stemOf(name), '_') < 0 ==> result
 //@   ensures !tags["*"] && firstIdx(stemOf(name), '_') >= 0 ==> result == fileOK(tailOf(stemOf(name)), tags, KnownOS, KnownArch)
+
+//@ func matchOS
+//@   pure
+//@   requires tags != nil
+//@   ensures result == selects(tags, goos)
